@@ -629,4 +629,84 @@ theorem around_again_window (S : Schema) (d d' db dab : Node) (f t gf gt ins p :
       exact ⟨a1, by rwa [show p + (gf - f) + (gt - gf) = p + (gt - f) by omega]⟩)
   rwa [show p + (gf - f) + (gt - gf) = p + (gt - f) by omega] at this
 
+
+/-! ### node-markup steps: the right-hand side behind / around the re-marked node -/
+
+/-- **behind the re-marked node nothing changed** -/
+theorem rightRel_remarkAt_before (S : Schema) {u : Node} : ∀ (kids : List Node) (pos : Nat) (n : Node),
+    nodeAtKids kids pos = .ok (some n) → Remarked n u → fnormKids kids = true →
+    ∀ q, pos < q → q ≤ fsize kids → alignedAt kids q = true →
+      RightRel S (remarkAt kids pos u) q kids q
+  | [], pos, n, hat, _, _ => by
+    unfold nodeAtKids at hat
+    split at hat <;> simp at hat
+  | x :: xs, pos, n, hat, hre, hn => by
+    intro q hq1 hq2 ha
+    simp only [fnormKids_cons, Bool.and_eq_true] at hn
+    unfold remarkAt
+    rw [mapNodeAt_cons]
+    by_cases hfz : pos = 0
+    · subst hfz
+      have hx : n = x := by
+        unfold nodeAtKids at hat; simp at hat; exact hat.symm
+      subst hx
+      rw [if_pos rfl]
+      have hsz := hre.withKids_size
+      by_cases hle : n.size ≤ q
+      · refine rightRel_of_split_eq S ?_ hq2 ha
+        rw [splitRight_skip _ _ _ (by omega) (by rw [hsz]; exact hle), splitRight_skip _ _ _ (by omega) hle, hsz]
+      · rcases hre with ⟨t, a, m, k, a', m', rfl, rfl⟩ | ⟨t, a, m, a', m', rfl, rfl⟩
+        · simp only [Node.size_elem, Nat.not_le] at hle
+          simp only [Node.withKids, Node.kids]
+          rw [alignedAt_cons, if_neg (by omega), if_neg (by simp; omega)] at ha
+          simp only [fsize_cons, Node.size_elem] at hq2
+          refine RightRel.deep (ty' := t) (a' := a') (m' := m') (k' := k) (i' := q - 1) (ty := t) (a := a) (m := m)
+            (k := k) (i := q - 1) (r := xs) ?_ ?_ (compatibleContent_self S t)
+            (RightRel.refl S k (q - 1) (by omega) ha)
+          · rw [splitRight_cons, if_neg (by omega), if_neg (by simp; omega)]
+          · rw [splitRight_cons, if_neg (by omega), if_neg (by simp; omega)]
+        · simp [Node.size] at hle; omega
+    rw [if_neg hfz]
+    by_cases hle : x.size ≤ pos
+    · have hat' : nodeAtKids xs (pos - x.size) = .ok (some n) := by
+        unfold nodeAtKids at hat; rw [if_neg hfz, if_pos hle] at hat; exact hat
+      rw [if_pos hle]
+      simp only [fsize_cons] at hq2
+      have hax : alignedAt xs (q - x.size) = true := by
+        rw [alignedAt_cons, if_neg (by omega), if_pos (by omega)] at ha; exact ha
+      have ih := rightRel_remarkAt_before S xs (pos - x.size) n hat' hre hn.2 (q - x.size) (by omega) (by omega) hax
+      have := ih.append_pre [x] (by simp [hn.1])
+      unfold remarkAt at this
+      simp only [List.singleton_append, fsize_cons, fsize_nil, Nat.add_zero] at this
+      rwa [show x.size + (q - x.size) = q by omega] at this
+    · rw [if_neg hle]
+      cases x with
+      | text s m =>
+        have hx : n = .text s m := by
+          unfold nodeAtKids at hat; rw [if_neg hfz, if_neg hle] at hat; simp at hat; exact hat.symm
+        subst hx
+        rcases hre with ⟨t, a, m, k, a', m', h, _⟩ | ⟨t, a, m, a', m', h, _⟩ <;> cases h
+      | leaf t a m => simp [Node.size] at hle; omega
+      | elem tyC aC mC kidsC =>
+        simp only [Node.size_elem, Nat.not_le] at hle
+        simp only [Node.norm_elem] at hn
+        have hat' : nodeAtKids kidsC (pos - 1) = .ok (some n) := by
+          unfold nodeAtKids at hat; rw [if_neg hfz, if_neg (by simp; omega)] at hat; exact hat
+        obtain ⟨hsz, _⟩ := mapNodeAt_spec kidsC (pos - 1) n hat' hre
+        unfold remarkAt at hsz
+        simp only [fsize_cons, Node.size_elem] at hq2
+        by_cases hin : q < 2 + fsize kidsC
+        · rw [alignedAt_cons, if_neg (by omega), if_neg (by simp; omega)] at ha
+          have ih := rightRel_remarkAt_before S kidsC (pos - 1) n hat' hre (fnormKids_of_fnorm hn.1) (q - 1)
+            (by omega) (by omega) ha
+          unfold remarkAt at ih
+          refine RightRel.deep (ty' := tyC) (a' := aC) (m' := mC) (k' := mapNodeAt (fun x => u.withKids x.kids) kidsC (pos - 1))
+            (i' := q - 1) (ty := tyC) (a := aC) (m := mC) (k := kidsC) (i := q - 1) (r := xs) ?_ ?_
+            (compatibleContent_self S tyC) ih
+          · rw [splitRight_cons, if_neg (by omega), if_neg (by simp; omega)]
+          · rw [splitRight_cons, if_neg (by omega), if_neg (by simp; omega)]
+        · refine rightRel_of_split_eq S ?_ (by simp; omega) ha
+          rw [splitRight_skip _ _ _ (by omega) (by simp; omega), splitRight_skip _ _ _ (by omega) (by simp; omega)]
+          simp [hsz]
+
 end PM
